@@ -253,7 +253,10 @@ Print Assumptions c15_trichotomy_date.
    and the next) and is 24 hours long.  Both hypotheses are about day d only: what is excluded is exactly a queried day
    on which the zone skips or repeats local time (23/25-hour days, a day that is not an interval) — the listed finding
    date-comparison:dst-transition-day (the code takes [local midnight, local midnight + 24h), gocommon
-   dates.DayToUTCRange).  A transition on any OTHER day of the zone does not matter (c15_day_ok_other_days). *)
+   dates.DayToUTCRange).  A transition on any OTHER day of the zone does not matter (c15_day_ok_other_days).
+   The 24-hour hypothesis also excludes a queried date the zone skipped altogether when it moved across the date line
+   (Pacific/Apia 2011-12-30, Pacific/Kiritimati 1994-12-31): such a day is 0 hours long, and the code answers the query
+   for the following day — the listed finding date-comparison:queried-day-skipped-by-zone (c15_skipped_day_example). *)
 Theorem c15_date_by_calendar_day_partial : forall (cal : calendar) e r c pt key v d t,
   day_ok cal d ->
   resolve_value_type r pt key = Some FDatetime -> v <> [] ->
@@ -285,6 +288,27 @@ Example c15_calendar_example :
   calendar_ok cal_utc /\ forall d, (midnight cal_utc (d + 1) = midnight cal_utc d + day_ns)%Z.
 Proof. exact cal_utc_ok. Qed.
 Print Assumptions c15_calendar_example.
+
+(* a zone that skips local day 1 altogether (as Pacific/Apia skipped 2011-12-30): no instant is on day 1; the day start
+   the environment gives for it is the first instant after the gap, which is the midnight of day 2, so day 1 is 0 hours
+   long and the 24-hour hypothesis of the partial theorem fails for it — for it only: every other day of the zone
+   satisfies both hypotheses.  And the conclusion does fail there: a contact at noon of local day 2 satisfies `= day 1`
+   (class date-comparison:queried-day-skipped-by-zone) *)
+Example c15_skipped_day_example :
+  (forall t, local_day cal_skip t <> 1%Z)
+  /\ midnight cal_skip (1 + 1) <> (midnight cal_skip 1 + day_ns)%Z
+  /\ (forall d, d <> 1%Z -> day_ok cal_skip d /\ (midnight cal_skip (d + 1) = midnight cal_skip d + day_ns)%Z)
+  /\ exists (e : env) (r : resolver) (c : contact) (pt : ptype) (key v : text) (t : Z),
+       resolve_value_type r pt key = Some FDatetime /\ v <> [] /\ query_property c pt key = [VTime t]
+       /\ e_day_start e v = Some (midnight cal_skip 1)
+       /\ local_day cal_skip t = 2%Z
+       /\ eval_contact e r (Cond pt key OpEq v) c = RBool true
+       /\ eval_contact e r (Cond pt key OpGt v) c = RBool false.
+Proof.
+  split; [exact cal_skip_day_never|]. split; [exact (proj2 cal_skip_day_empty)|].
+  split; [exact cal_skip_other_days|exact date_skipped_day_fails_on_contact].
+Qed.
+Print Assumptions c15_skipped_day_example.
 
 (* on a 25-hour day (clocks set back) an instant 24.5 hours after local midnight is on the queried calendar
    day, yet `=` is false and `>` is true *)
